@@ -553,6 +553,22 @@ def check(idx: Index, rep: Report, tier: str) -> str:
         else:
             r7.ok(inst, f"{cm.module.relpath}:{rt.lineno} inner expressions pass through replace_dims_and_symbols with symbols shifted by self.num_symbols")
 
+    # ---- R8 substitution of dims and symbols is simultaneous
+    r8 = rep.rule("C26.R8", "AffineExpr.replace_dims_and_symbols substitutes dimensions and symbols in one traversal: no replacement step is applied to the result of another replacement step", floor=1)
+    rf = idx.func(AE, "AffineExpr.replace_dims_and_symbols")
+    rcfg = CFG(rf.node)
+    chained = None
+    for c in calls_in(rf.node):
+        if isinstance(c.func, ast.Attribute) and re.search(r"replace", c.func.attr):
+            recv = resolved_text(rcfg, c.func.value, rcfg.node_of(c))
+            if re.search(r"\.\w*replace\w*\(", recv):
+                chained = (c, recv)
+                break
+    if chained:
+        r8.fail(rf.fq, Finding("C26.R8", rf.fq, "sequential-substitution", f"`{unparse(chained[0])[:70]}` is applied to `{chained[1][:60]}`, the result of an earlier replacement: a symbol (dimension) that the first step *introduced* is rewritten again by the second, so `d0 := s0, s0 := s1` turns d0 into s1 - the substitution is no longer simultaneous", f"{rf.module.relpath}:{chained[0].lineno}"))
+    else:
+        r8.ok(rf.fq, f"{rf.loc} each replacement is applied to a sub-expression of the receiver only")
+
     return (
         "Table agreement between the six dispatchers over AffineBinaryOpKind (binary, eval, constant folding, token "
         "printing and the affine parser, operator constructors, the flattener), reflected-operator rule, and two structural "
